@@ -8,6 +8,8 @@ import Driver.Tz
 import Driver.Daemon
 import Driver.Exec
 import Driver.Ical
+import Driver.Rrule
+import Driver.RrFill
 open Driver
 
 def step (line : String) : String :=
@@ -24,6 +26,8 @@ def step (line : String) : String :=
     else if op == "d.hist" then runDaemon args
     else if op == "x.run" then runExec args
     else if op == "p.lines" then runIcal args
+    else if op.startsWith "y." then runRrule op args
+    else if op == "r.fill" then runRrFill args
     else "bad-op"
 
 partial def loop (h : IO.FS.Stream) (out : IO.FS.Stream) : IO Unit := do
